@@ -189,3 +189,59 @@ end
 end roundtrip
 
 end PdfVerif.Crypt
+
+namespace PdfVerif.Crypt
+open PdfVerif PdfVerif.Gen.Crypt PdfVerif.CryptWriter
+
+/-! ### instrumented traversal -/
+
+section trace
+variable (f : Bytes → Bytes) (g : Bool → Bytes → Bytes)
+
+mutual
+theorem decipherAllT_spec (o : Obj) :
+    decipherAllT f g o = (decipherAll f g o, expectedCalls o) := by
+  cases o with
+  | str b => by_cases hb : b.isEmpty <;> simp [decipherAllT, decipherAll, expectedCalls, hb]
+  | atom a => rfl
+  | arr xs => simp only [decipherAllT, decipherAll, expectedCalls, decipherListT_spec xs]
+  | dict kvs => simp only [decipherAllT, decipherAll, expectedCalls, decipherKVsT_spec kvs]
+  | stream attrs raw =>
+    by_cases hx : attrsType attrs = some atomXRef
+    · simp only [decipherAllT, decipherAll, expectedCalls, hx, if_true]
+    · simp only [decipherAllT, decipherAll, expectedCalls, hx, if_false, decipherKVsT_spec attrs]
+theorem decipherListT_spec (xs : List Obj) :
+    decipherListT f g xs = (decipherList f g xs, expectedCallsList xs) := by
+  cases xs with
+  | nil => rfl
+  | cons x xs =>
+    simp only [decipherListT, decipherList, expectedCallsList, decipherAllT_spec x, decipherListT_spec xs]
+theorem decipherKVsT_spec (kvs : List (Bytes × Obj)) :
+    decipherKVsT f g kvs = (decipherKVs f g kvs, expectedCallsKVs kvs) := by
+  cases kvs with
+  | nil => rfl
+  | cons kv rest =>
+    obtain ⟨k, v⟩ := kv
+    simp only [decipherKVsT, decipherKVs, expectedCallsKVs, decipherAllT_spec v, decipherKVsT_spec rest]
+end
+end trace
+
+end PdfVerif.Crypt
+
+namespace PdfVerif.Crypt
+open PdfVerif PdfVerif.Gen.Crypt PdfVerif.CryptWriter
+
+theorem iter_succ' {α : Type} (f : α → α) (n : Nat) (x : α) : iter f (n + 1) x = f (iter f n x) := by
+  induction n generalizing x with
+  | zero => rfl
+  | succ n ih => rw [iter, ih (f x)]; rfl
+
+/-- Length of the file key of Algorithm 2: `min (Length/8) 16` for revisions >= 3 - in particular
+    16 bytes for every V4 (AESV2) document, where pdfminer forces Length = 128. -/
+theorem alg2Key_length (P : Prims) (hmd5 : ∀ x, (P.md5 x).length = 16) (c : Cfg) (pu o : Bytes)
+    (hr : c.r ≥ 3) : (alg2Key P c pu o).length = min (keyLen c) 16 := by
+  unfold alg2Key
+  simp only [hr, if_true]
+  rw [show (50 : Nat) = 49 + 1 from rfl, iter_succ', List.length_take, hmd5]
+
+end PdfVerif.Crypt
